@@ -1,6 +1,1267 @@
-//! C07 — not built yet.
+//! C07 — filter evaluation follows the Haystack filter semantics.
+//!
+//! A case is `MODE F n REC*n RES`:
+//!   MODE  `d`: `Filtered::filter` on every record (Dict resolver, DEFAULT_NS), `Filtered::filter` and
+//!              `ListFiltered::filter_all` on the grid of the records;
+//!         `r`: `Eval::eval` with an `EvalContext` around the caller-supplied resolver `Recs` (follows
+//!              Refs through the record list RES) and the namespace of tests/defs/defs.zinc;
+//!   F     the filter as a tree in prefix tokens (own exchange syntax, parsed by both sides):
+//!           OR ::= or k AND*k   AND ::= and k TERM*k   P ::= k H*k
+//!           TERM ::= par OR | has P | miss P | isa H | weq P H | rel H HO HO | cmp OP P V
+//!   REC   a record as VX dict `{ k (H V)*k`;  RES ::= same | k REC*k  (the resolver's records).
+//! The real `Filter` is obtained by printing the tree as filter text and `Filter::try_from`; the parsed
+//! tree must be the printed one (oracle `parse_tree`: 'and' binds tighter than 'or', parentheses group).
+//! Correspondence: `C07 feval <case> <namespace answers>` → `ok e=<bits> s=<bits|?>[ f=.. a=..]`
+//!   e = what the code answers per record (model: `evalImpl`), s = what the property demands per record
+//!   (`?` where it leaves the answer open: an ordering comparison between Numbers of different units);
+//!   on the implementation side `s` comes from the independent oracle below, on the model side from
+//!   the Lean `evalSpec`, so the two specifications check each other as well.
+//! Oracles on the real code: `eval_spec` (e vs s), `grid_all`, `grid_first`, `parse_tree`.
+
 use crate::ctx::{CaseOut, Ctx};
+use crate::gen::{self, Cfg};
+use crate::rng::Rng;
+use crate::vx;
+use libhaystack::defs::namespace::{Namespace, DEFAULT_NS};
+use libhaystack::filter::eval::{Eval, EvalContext};
+use libhaystack::filter::nodes as fnode;
+use libhaystack::filter::path::Path;
+use libhaystack::filter::{Filter, Filtered, ListFiltered, PathResolver};
+use libhaystack::val::*;
+use std::cmp::Ordering;
+use std::sync::OnceLock;
 
-pub fn exec(_label: &str, _input: &str, _out: &mut CaseOut) {}
+// ------------------------------------------------------------------------------------------------
+// the harness' own filter tree
+// ------------------------------------------------------------------------------------------------
+#[derive(Clone, Copy, PartialEq, Eq, Debug)]
+enum Op {
+    Eq,
+    Ne,
+    Lt,
+    Le,
+    Gt,
+    Ge,
+}
+const OPS: [Op; 6] = [Op::Eq, Op::Ne, Op::Lt, Op::Le, Op::Gt, Op::Ge];
+impl Op {
+    fn tok(self) -> &'static str {
+        match self {
+            Op::Eq => "eq",
+            Op::Ne => "ne",
+            Op::Lt => "lt",
+            Op::Le => "le",
+            Op::Gt => "gt",
+            Op::Ge => "ge",
+        }
+    }
+    fn text(self) -> &'static str {
+        match self {
+            Op::Eq => "==",
+            Op::Ne => "!=",
+            Op::Lt => "<",
+            Op::Le => "<=",
+            Op::Gt => ">",
+            Op::Ge => ">=",
+        }
+    }
+    fn is_order(self) -> bool {
+        !matches!(self, Op::Eq | Op::Ne)
+    }
+}
 
-pub fn generate(_ctx: &mut Ctx) {}
+type POr = Vec<PAnd>;
+type PAnd = Vec<T>;
+#[derive(Clone, Debug)]
+enum T {
+    Par(POr),
+    Has(Vec<String>),
+    Miss(Vec<String>),
+    IsA(String),
+    Weq(Vec<String>, String),
+    Rel(String, Option<String>, Option<String>),
+    Cmp(Op, Vec<String>, Value),
+}
+
+fn w_path(p: &[String], out: &mut Vec<String>) {
+    out.push(p.len().to_string());
+    for s in p {
+        out.push(vx::h(s));
+    }
+}
+fn w_or(o: &POr, out: &mut Vec<String>) {
+    out.push("or".into());
+    out.push(o.len().to_string());
+    for a in o {
+        out.push("and".into());
+        out.push(a.len().to_string());
+        for t in a {
+            w_term(t, out);
+        }
+    }
+}
+fn w_term(t: &T, out: &mut Vec<String>) {
+    match t {
+        T::Par(o) => {
+            out.push("par".into());
+            w_or(o, out);
+        }
+        T::Has(p) => {
+            out.push("has".into());
+            w_path(p, out);
+        }
+        T::Miss(p) => {
+            out.push("miss".into());
+            w_path(p, out);
+        }
+        T::IsA(s) => {
+            out.push("isa".into());
+            out.push(vx::h(s));
+        }
+        T::Weq(p, r) => {
+            out.push("weq".into());
+            w_path(p, out);
+            out.push(vx::h(r));
+        }
+        T::Rel(r, t, f) => {
+            out.push("rel".into());
+            out.push(vx::h(r));
+            out.push(vx::ho(t));
+            out.push(vx::ho(f));
+        }
+        T::Cmp(op, p, v) => {
+            out.push("cmp".into());
+            out.push(op.tok().into());
+            w_path(p, out);
+            vx::w_val(v, out);
+        }
+    }
+}
+fn show_or(o: &POr) -> String {
+    let mut v = Vec::new();
+    w_or(o, &mut v);
+    v.join(" ")
+}
+
+fn r_path(rd: &mut vx::Rd) -> Option<Vec<String>> {
+    let k: usize = rd.num()?;
+    let mut p = Vec::new();
+    for _ in 0..k {
+        p.push(rd.hs()?);
+    }
+    Some(p)
+}
+fn r_or(rd: &mut vx::Rd) -> Option<POr> {
+    if rd.tok()? != "or" {
+        return None;
+    }
+    let k: usize = rd.num()?;
+    let mut o = Vec::new();
+    for _ in 0..k {
+        if rd.tok()? != "and" {
+            return None;
+        }
+        let m: usize = rd.num()?;
+        let mut a = Vec::new();
+        for _ in 0..m {
+            a.push(r_term(rd)?);
+        }
+        o.push(a);
+    }
+    Some(o)
+}
+fn r_term(rd: &mut vx::Rd) -> Option<T> {
+    Some(match rd.tok()? {
+        "par" => T::Par(r_or(rd)?),
+        "has" => T::Has(r_path(rd)?),
+        "miss" => T::Miss(r_path(rd)?),
+        "isa" => T::IsA(rd.hs()?),
+        "weq" => {
+            let p = r_path(rd)?;
+            T::Weq(p, rd.hs()?)
+        }
+        "rel" => {
+            let r = rd.hs()?;
+            let t = rd.hos()?;
+            let f = rd.hos()?;
+            T::Rel(r, t, f)
+        }
+        "cmp" => {
+            let op = match rd.tok()? {
+                "eq" => Op::Eq,
+                "ne" => Op::Ne,
+                "lt" => Op::Lt,
+                "le" => Op::Le,
+                "gt" => Op::Gt,
+                "ge" => Op::Ge,
+                _ => return None,
+            };
+            let p = r_path(rd)?;
+            T::Cmp(op, p, rd.val()?)
+        }
+        _ => return None,
+    })
+}
+
+// ---- filter text (own printer; literals restricted to what it can spell) ------------------------
+fn lit_text(v: &Value) -> Option<String> {
+    Some(match v {
+        Value::Bool(b) => (if b.value { "true" } else { "false" }).to_string(),
+        Value::Number(n) => {
+            if !n.value.is_finite() {
+                return None;
+            }
+            let mut s = format!("{}", n.value);
+            if let Some(u) = n.unit {
+                s.push_str(u.symbol());
+            }
+            s
+        }
+        Value::Str(s) => {
+            if !s.value.chars().all(|c| c.is_ascii_alphanumeric() || c == ' ' || c == '_' || c == '-') {
+                return None;
+            }
+            format!("\"{}\"", s.value)
+        }
+        Value::Uri(s) => {
+            if !s.value.chars().all(|c| c.is_ascii_alphanumeric() || c == '/' || c == '.' || c == ':') {
+                return None;
+            }
+            format!("`{}`", s.value)
+        }
+        Value::Ref(r) => {
+            if r.dis.is_some() || r.value.is_empty() || !r.value.chars().all(|c| c.is_ascii_alphanumeric() || c == '_') {
+                return None;
+            }
+            format!("@{}", r.value)
+        }
+        Value::Symbol(s) => {
+            if s.value.is_empty() || !s.value.chars().all(|c| c.is_ascii_alphanumeric()) || !s.value.starts_with(|c: char| c.is_ascii_lowercase()) {
+                return None;
+            }
+            format!("^{}", s.value)
+        }
+        Value::Date(d) => format!("{:?}", **d),
+        Value::Time(t) => format!("{:?}", **t),
+        Value::DateTime(dt) => {
+            let name = dt.timezone_short_name();
+            format!("{} {}", dt.to_rfc3339_opts(chrono::SecondsFormat::AutoSi, true), name)
+        }
+        _ => return None,
+    })
+}
+fn path_text(p: &[String]) -> String {
+    p.join("->")
+}
+fn or_text(o: &POr) -> Option<String> {
+    let mut ands = Vec::new();
+    for a in o {
+        let mut ts = Vec::new();
+        for t in a {
+            ts.push(term_text(t)?);
+        }
+        ands.push(ts.join(" and "));
+    }
+    Some(ands.join(" or "))
+}
+fn term_text(t: &T) -> Option<String> {
+    Some(match t {
+        T::Par(o) => format!("({})", or_text(o)?),
+        T::Has(p) => path_text(p),
+        T::Miss(p) => format!("not {}", path_text(p)),
+        T::IsA(s) => format!("^{s}"),
+        T::Weq(p, r) => format!("{} *== @{}", path_text(p), r),
+        T::Rel(r, t, f) => {
+            let mut s = format!("{r}?");
+            if let Some(t) = t {
+                s.push_str(&format!(" ^{t}"));
+            }
+            if let Some(f) = f {
+                s.push_str(&format!(" @{f}"));
+            }
+            s
+        }
+        T::Cmp(op, p, v) => format!("{} {} {}", path_text(p), op.text(), lit_text(v)?),
+    })
+}
+
+/// P1 (a multi-segment path swallows a following `and`/`or`, property C08): a bare multi-segment
+/// `tag` / `not tag` term is kept only where the next token is `)` or the end of the text, i.e. as the
+/// last term of the last And of its Or; elsewhere it is wrapped in parentheses.
+fn avoid_p1(o: &mut POr) {
+    let n_and = o.len();
+    for (i, a) in o.iter_mut().enumerate() {
+        let n_t = a.len();
+        for (j, t) in a.iter_mut().enumerate() {
+            let tail = i + 1 == n_and && j + 1 == n_t;
+            match t {
+                T::Par(inner) => avoid_p1(inner),
+                T::Has(p) | T::Miss(p) if p.len() > 1 && !tail => {
+                    let inner = t.clone();
+                    *t = T::Par(vec![vec![inner]]);
+                }
+                _ => {}
+            }
+        }
+    }
+}
+
+// ---- the parsed `Filter` back into the harness tree ---------------------------------------------
+fn path_of(p: &Path) -> Vec<String> {
+    p.iter().map(|id| id.to_string()).collect()
+}
+fn from_or(o: &fnode::Or) -> POr {
+    o.ands.iter().map(|a| a.terms.iter().map(from_term).collect()).collect()
+}
+fn from_term(t: &fnode::Term) -> T {
+    match t {
+        fnode::Term::Parens(p) => T::Par(from_or(&p.or)),
+        fnode::Term::Has(h) => T::Has(path_of(&h.path)),
+        fnode::Term::Missing(m) => T::Miss(path_of(&m.path)),
+        fnode::Term::IsA(i) => T::IsA(i.symbol.value.clone()),
+        fnode::Term::WildcardEq(w) => T::Weq(path_of(&w.id), w.ref_value.value.clone()),
+        fnode::Term::Relation(r) => T::Rel(
+            r.rel.value.clone(),
+            r.rel_term.as_ref().map(|s| s.value.clone()),
+            r.ref_value.as_ref().map(|s| s.value.clone()),
+        ),
+        fnode::Term::Cmp(c) => T::Cmp(
+            match c.op {
+                fnode::CmpOp::Eq => Op::Eq,
+                fnode::CmpOp::NotEq => Op::Ne,
+                fnode::CmpOp::LessThan => Op::Lt,
+                fnode::CmpOp::LessThanEq => Op::Le,
+                fnode::CmpOp::GreatThan => Op::Gt,
+                fnode::CmpOp::GreatThanEq => Op::Ge,
+            },
+            path_of(&c.path),
+            c.value.clone(),
+        ),
+    }
+}
+
+// ------------------------------------------------------------------------------------------------
+// the caller-supplied resolver (model: `Hs.recsResolver`)
+// ------------------------------------------------------------------------------------------------
+struct Recs {
+    recs: Vec<Dict>,
+}
+impl PathResolver for Recs {
+    fn resolve_for(&self, root: &Dict, path: &Path) -> Value {
+        if path.is_empty() || root.is_empty() {
+            return Value::Null;
+        }
+        let mut cur = Value::Dict(root.clone());
+        for seg in path.iter() {
+            let key = seg.to_string();
+            cur = match &cur {
+                Value::Dict(d) => d.get(&key).cloned().unwrap_or(Value::Null),
+                Value::Ref(r) => match self.resolve_ref(r) {
+                    Some(d) => d.get(&key).cloned().unwrap_or(Value::Null),
+                    None => Value::Null,
+                },
+                _ => Value::Null,
+            };
+            if cur.is_null() {
+                break;
+            }
+        }
+        cur
+    }
+    fn resolve(&self, _path: &Path) -> Value {
+        Value::Null
+    }
+    fn resolve_ref(&self, reference: &Ref) -> Option<Dict> {
+        self.recs.iter().find(|r| r.get_ref("id") == Some(reference)).cloned()
+    }
+}
+
+fn defs_ns() -> &'static Namespace<'static> {
+    static NS: OnceLock<&'static Namespace<'static>> = OnceLock::new();
+    NS.get_or_init(|| {
+        let ns = std::fs::read_to_string("/repo/tests/defs/defs.zinc")
+            .ok()
+            .and_then(|s| libhaystack::encoding::zinc::decode::from_str(&s).ok())
+            .and_then(|v| Grid::try_from(&v).ok())
+            .map(Namespace::make)
+            .unwrap_or_default();
+        Box::leak(Box::new(ns))
+    })
+}
+
+// ------------------------------------------------------------------------------------------------
+// independent oracle: the property text, on the harness tree
+// ------------------------------------------------------------------------------------------------
+fn deref<'a>(recs: &'a [Dict], id: &str) -> Option<&'a Dict> {
+    recs.iter().find(|r| matches!(r.get("id"), Some(Value::Ref(x)) if x.value == id))
+}
+/// 'a->b' looks b up in the dict (or resolver-supplied record) that a resolves to; `None`: the path
+/// does not resolve to a value
+fn lookup(recs: &[Dict], rec: &Dict, path: &[String]) -> Option<Value> {
+    let (first, rest) = path.split_first()?;
+    let v = rec.get(first)?;
+    if rest.is_empty() {
+        return if matches!(v, Value::Null) { None } else { Some(v.clone()) };
+    }
+    match v {
+        Value::Dict(d) => lookup(recs, d, rest),
+        Value::Ref(r) => lookup(recs, deref(recs, &r.value)?, rest),
+        _ => None,
+    }
+}
+fn unit_sym(n: &Number) -> Option<&str> {
+    n.unit.map(|u| u.symbol())
+}
+/// order of two values of the same kind (literal kinds of the filter language); `None`: different
+/// kinds, or unordered
+fn ord_same(v: &Value, lit: &Value) -> Option<Ordering> {
+    match (v, lit) {
+        (Value::Bool(a), Value::Bool(b)) => Some(a.value.cmp(&b.value)),
+        (Value::Number(a), Value::Number(b)) => {
+            if unit_sym(a) == unit_sym(b) {
+                a.value.partial_cmp(&b.value)
+            } else {
+                None // left open by the property; such pairs are masked by `mixed`
+            }
+        }
+        (Value::Str(a), Value::Str(b)) => Some(a.value.as_str().cmp(b.value.as_str())),
+        (Value::Uri(a), Value::Uri(b)) => Some(a.value.as_str().cmp(b.value.as_str())),
+        (Value::Symbol(a), Value::Symbol(b)) => Some(a.value.as_str().cmp(b.value.as_str())),
+        (Value::Ref(a), Value::Ref(b)) => Some(a.value.as_str().cmp(b.value.as_str())),
+        (Value::Date(a), Value::Date(b)) => Some((**a).cmp(&**b)),
+        (Value::Time(a), Value::Time(b)) => Some((**a).cmp(&**b)),
+        (Value::DateTime(a), Value::DateTime(b)) => Some(
+            (a.timestamp(), a.timestamp_subsec_nanos()).cmp(&(b.timestamp(), b.timestamp_subsec_nanos())),
+        ),
+        _ => None,
+    }
+}
+fn equal(v: &Value, lit: &Value) -> bool {
+    match (v, lit) {
+        (Value::Bool(a), Value::Bool(b)) => a.value == b.value,
+        (Value::Number(a), Value::Number(b)) => a.value == b.value && unit_sym(a) == unit_sym(b),
+        (Value::Str(a), Value::Str(b)) => a.value == b.value,
+        (Value::Uri(a), Value::Uri(b)) => a.value == b.value,
+        (Value::Symbol(a), Value::Symbol(b)) => a.value == b.value,
+        (Value::Ref(a), Value::Ref(b)) => a.value == b.value,
+        (Value::Date(_), Value::Date(_)) | (Value::Time(_), Value::Time(_)) | (Value::DateTime(_), Value::DateTime(_)) => {
+            ord_same(v, lit) == Some(Ordering::Equal)
+        }
+        _ => std::mem::discriminant(v) == std::mem::discriminant(lit) && v == lit,
+    }
+}
+/// the value stands in the stated relation to the literal
+fn stands(op: Op, v: &Value, lit: &Value) -> bool {
+    match op {
+        Op::Eq => equal(v, lit),
+        Op::Ne => !equal(v, lit),
+        Op::Lt => ord_same(v, lit) == Some(Ordering::Less),
+        Op::Le => matches!(ord_same(v, lit), Some(Ordering::Less | Ordering::Equal)),
+        Op::Gt => ord_same(v, lit) == Some(Ordering::Greater),
+        Op::Ge => matches!(ord_same(v, lit), Some(Ordering::Greater | Ordering::Equal)),
+    }
+}
+/// … or, when it is a list, some element does (Null is no value)
+fn holds(op: Op, v: &Value, lit: &Value) -> bool {
+    match v {
+        Value::Null => false,
+        Value::List(l) => l.iter().any(|e| holds(op, e, lit)),
+        _ => stands(op, v, lit),
+    }
+}
+/// would deciding `v op lit` have to order two Numbers with different units
+fn mixed_in(v: &Value, lit: &Number) -> bool {
+    match v {
+        Value::Number(a) => unit_sym(a) != unit_sym(lit),
+        Value::List(l) => l.iter().any(|e| mixed_in(e, lit)),
+        _ => false,
+    }
+}
+struct Env<'a> {
+    recs: &'a [Dict],
+    idx: usize,
+    fits: &'a [(String, Vec<bool>)],
+    rels: &'a [((String, Option<String>, Option<String>), Vec<bool>)],
+}
+fn spec_mixed(env: &Env, rec: &Dict, o: &POr) -> bool {
+    o.iter().any(|a| {
+        a.iter().any(|t| match t {
+            T::Par(i) => spec_mixed(env, rec, i),
+            T::Cmp(op, p, Value::Number(n)) if op.is_order() => lookup(env.recs, rec, p).map_or(false, |v| mixed_in(&v, n)),
+            _ => false,
+        })
+    })
+}
+fn spec_or(env: &Env, rec: &Dict, o: &POr) -> bool {
+    o.iter().any(|a| a.iter().all(|t| spec_term(env, rec, t)))
+}
+fn spec_term(env: &Env, rec: &Dict, t: &T) -> bool {
+    match t {
+        T::Par(o) => spec_or(env, rec, o),
+        T::Has(p) => lookup(env.recs, rec, p).is_some(),
+        T::Miss(p) => lookup(env.recs, rec, p).is_none(),
+        T::IsA(s) => env.fits.iter().find(|e| &e.0 == s).map_or(false, |e| e.1[env.idx]),
+        T::Rel(r, tm, f) => env.rels.iter().find(|e| &e.0 .0 == r && &e.0 .1 == tm && &e.0 .2 == f).map_or(false, |e| e.1[env.idx]),
+        T::Weq(p, target) => {
+            // the Ref chain starting at the path's value reaches the target
+            let mut cur: Dict = rec.clone();
+            for _ in 0..env.recs.len() + 2 {
+                match lookup(env.recs, &cur, p) {
+                    Some(Value::Ref(r)) => {
+                        if &r.value == target {
+                            return true;
+                        }
+                        match deref(env.recs, &r.value) {
+                            Some(d) => cur = d.clone(),
+                            None => return false,
+                        }
+                    }
+                    _ => return false,
+                }
+            }
+            false
+        }
+        T::Cmp(op, p, lit) => match lookup(env.recs, rec, p) {
+            None => false,
+            Some(v) => holds(*op, &v, lit),
+        },
+    }
+}
+
+fn collect_ns(o: &POr, isa: &mut Vec<String>, rel: &mut Vec<(String, Option<String>, Option<String>)>) {
+    for a in o {
+        for t in a {
+            match t {
+                T::Par(i) => collect_ns(i, isa, rel),
+                T::IsA(s) => {
+                    if !isa.contains(s) {
+                        isa.push(s.clone())
+                    }
+                }
+                T::Rel(r, tm, f) => {
+                    let k = (r.clone(), tm.clone(), f.clone());
+                    if !rel.contains(&k) {
+                        rel.push(k)
+                    }
+                }
+                _ => {}
+            }
+        }
+    }
+}
+fn term_stats(o: &POr, out: &mut CaseOut, depth: usize) {
+    for a in o {
+        for t in a {
+            match t {
+                T::Par(i) => {
+                    out.stat("term:parens");
+                    term_stats(i, out, depth + 1)
+                }
+                T::Has(p) => out.stat(&format!("term:has/{}", p.len())),
+                T::Miss(p) => out.stat(&format!("term:missing/{}", p.len())),
+                T::IsA(_) => out.stat("term:isA"),
+                T::Weq(..) => out.stat("term:wildcardEq"),
+                T::Rel(..) => out.stat("term:relation"),
+                T::Cmp(op, p, _) => {
+                    out.stat(&format!("term:cmp/{}", op.tok()));
+                    out.stat(&format!("path_len:{}", p.len()));
+                }
+            }
+        }
+    }
+    if depth == 0 {
+        out.stat(&format!("ands:{}", o.len().min(5)));
+    }
+}
+/// per record: which kinds of term hold / do not hold (distribution in the evidence)
+fn truth_stats(env: &Env, rec: &Dict, o: &POr, out: &mut CaseOut) {
+    for a in o {
+        for t in a {
+            let kind = match t {
+                T::Par(i) => {
+                    truth_stats(env, rec, i, out);
+                    continue;
+                }
+                T::Has(_) => "has",
+                T::Miss(_) => "missing",
+                T::IsA(_) => "isA",
+                T::Weq(..) => "wildcardEq",
+                T::Rel(..) => "relation",
+                T::Cmp(op, p, lit) => {
+                    // the class of the resolved value relative to the literal
+                    let class = match lookup(env.recs, rec, p) {
+                        None => "unresolved",
+                        Some(Value::List(_)) => "list",
+                        Some(v) if std::mem::discriminant(&v) == std::mem::discriminant(lit) => "same_kind",
+                        Some(_) => "other_kind",
+                    };
+                    out.stat(&format!("cmp_value:{}/{}", if op.is_order() { "order" } else { "equality" }, class));
+                    "cmp"
+                }
+            };
+            out.stat(&format!("truth:{kind}={}", spec_term(env, rec, t)));
+        }
+    }
+}
+fn count_terms(o: &POr) -> usize {
+    o.iter().map(|a| a.iter().map(|t| if let T::Par(i) = t { count_terms(i) } else { 1 }).sum::<usize>()).sum()
+}
+
+fn bits(b: &[bool]) -> String {
+    b.iter().map(|x| if *x { '1' } else { '0' }).collect()
+}
+
+pub fn exec(_label: &str, input: &str, out: &mut CaseOut) {
+    let mut rd = vx::Rd::new(input);
+    let parsed = (|| {
+        let mode = rd.tok()?.to_string();
+        let f = r_or(&mut rd)?;
+        let n: usize = rd.num()?;
+        let mut recs = Vec::new();
+        for _ in 0..n {
+            recs.push(rd.dict()?);
+        }
+        let res = if rd.peek()? == "same" {
+            rd.tok();
+            None
+        } else {
+            let k: usize = rd.num()?;
+            let mut v = Vec::new();
+            for _ in 0..k {
+                v.push(rd.dict()?);
+            }
+            Some(v)
+        };
+        Some((mode, f, recs, res))
+    })();
+    let (mode, tree, mut recs, res) = match parsed {
+        Some(x) if x.0 == "d" || x.0 == "r" => x,
+        _ => {
+            out.fail("harness", "unparsable C07 input".into());
+            return;
+        }
+    };
+    let is_dict = mode == "d";
+    if is_dict {
+        // grid rows are identified by their text: keep the first of equal records
+        let mut seen = std::collections::HashSet::new();
+        recs.retain(|r| seen.insert(vx::show(&Value::Dict(r.clone()))));
+    }
+    // ---- the real Filter, through the parser --------------------------------------------------
+    let text = match or_text(&tree) {
+        Some(t) => t,
+        None => {
+            out.fail("harness", "filter not spellable".into());
+            return;
+        }
+    };
+    let filter = match Filter::try_from(text.as_str()) {
+        Ok(f) => f,
+        Err(_) => {
+            out.fail("parse_tree", format!("`{text}` does not parse"));
+            return;
+        }
+    };
+    let back = from_or(&filter.or);
+    if show_or(&back) != show_or(&tree) {
+        out.fail("parse_tree", format!("`{text}` parses to another tree: `{filter}`"));
+        return;
+    }
+    out.nontrivial = !recs.is_empty();
+    out.stat(if is_dict { "mode:dict+grid" } else { "mode:resolver" });
+    term_stats(&tree, out, 0);
+    out.stat(&format!("terms:{}", count_terms(&tree).min(8)));
+
+    // ---- run the implementation ------------------------------------------------------------------
+    let res_recs: Vec<Dict> = if is_dict { Vec::new() } else { res.clone().unwrap_or_else(|| recs.clone()) };
+    let resolver = Recs { recs: res_recs.clone() };
+    let ns: &Namespace = if is_dict { &DEFAULT_NS } else { defs_ns() };
+    let mut isa = Vec::new();
+    let mut rel = Vec::new();
+    collect_ns(&tree, &mut isa, &mut rel);
+    // the namespace's own answers (C13 covers them); both the model and the oracle take them as given
+    let fits_t: Vec<(String, Vec<bool>)> = isa
+        .iter()
+        .map(|s| (s.clone(), recs.iter().map(|r| ns.reflect(r).fits(&Symbol::from(s.as_str()))).collect()))
+        .collect();
+    let rel_t: Vec<((String, Option<String>, Option<String>), Vec<bool>)> = rel
+        .iter()
+        .map(|k| {
+            let ans = recs
+                .iter()
+                .map(|r| {
+                    let resolve = |id: &Ref| if is_dict { None } else { resolver.resolve_ref(id) };
+                    ns.has_relationship(
+                        r,
+                        &Symbol::from(k.0.as_str()),
+                        &k.1.as_ref().map(|s| Symbol::from(s.as_str())),
+                        &k.2.as_ref().map(|s| Ref::from(s.as_str())),
+                        &resolve,
+                    )
+                })
+                .collect();
+            (k.clone(), ans)
+        })
+        .collect();
+
+    let e: Vec<bool> = recs
+        .iter()
+        .map(|r| {
+            if is_dict {
+                r.filter(&filter)
+            } else {
+                let cx = EvalContext::make(r, ns, &resolver);
+                filter.eval(&cx)
+            }
+        })
+        .collect();
+
+    // ---- the oracle --------------------------------------------------------------------------------
+    let mut s = String::new();
+    let mut any_open = false;
+    for (i, r) in recs.iter().enumerate() {
+        let env = Env { recs: &res_recs, idx: i, fits: &fits_t, rels: &rel_t };
+        if spec_mixed(&env, r, &tree) {
+            s.push('?');
+            any_open = true;
+            out.stat("pair:left_open(mixed units)");
+            continue;
+        }
+        let want = spec_or(&env, r, &tree);
+        truth_stats(&env, r, &tree, out);
+        s.push(if want { '1' } else { '0' });
+        out.stat(if want { "pair:holds" } else { "pair:does_not_hold" });
+        if want != e[i] {
+            out.fail(
+                "eval_spec",
+                format!(
+                    "`{text}` on record #{i} {}: the code answers {}, the property demands {}",
+                    libhaystack::encoding::zinc::encode::to_zinc_string(&Value::Dict(r.clone())).unwrap_or_default(),
+                    e[i],
+                    want
+                ),
+            );
+        }
+    }
+    let mut reply = format!("ok e={} s={}", bits(&e), s);
+
+    if is_dict {
+        let grid = Grid::make_from_dicts(recs.clone());
+        let index_of = |d: &Dict| grid.rows.iter().position(|r| std::ptr::eq(r, d));
+        let first = grid.filter(&filter).map(|d| index_of(d));
+        let all: Vec<Option<usize>> = grid.filter_all(&filter).into_iter().map(|d| index_of(d)).collect();
+        let show_idx = |i: &Option<usize>| i.map_or("?".to_string(), |i| i.to_string());
+        reply.push_str(&format!(
+            " f={} a={}",
+            match &first {
+                None => "-".to_string(),
+                Some(i) => show_idx(i),
+            },
+            if all.is_empty() { "-".to_string() } else { all.iter().map(show_idx).collect::<Vec<_>>().join(",") }
+        ));
+        if grid.rows.len() != recs.len() || grid.rows.iter().zip(recs.iter()).any(|(a, b)| vx::show(&Value::Dict(a.clone())) != vx::show(&Value::Dict(b.clone()))) {
+            out.fail("harness", "Grid::make_from_dicts changed the rows".into());
+        }
+        if !any_open {
+            let want_all: Vec<Option<usize>> = s.chars().enumerate().filter(|(_, c)| *c == '1').map(|(i, _)| Some(i)).collect();
+            if all != want_all {
+                out.fail("grid_all", format!("`{text}`: filter_all returned rows {all:?}, the rows for which the filter holds are {want_all:?}"));
+            }
+            let want_first = want_all.first().cloned();
+            if first != want_first {
+                out.fail("grid_first", format!("`{text}`: Grid::filter returned row {first:?}, the first matching row is {want_first:?}"));
+            }
+        }
+    }
+
+    // ---- correspondence request -----------------------------------------------------------------
+    let mut rq: Vec<String> = vec!["C07".into(), "feval".into(), mode.clone()];
+    w_or(&tree, &mut rq);
+    rq.push(recs.len().to_string());
+    for r in &recs {
+        vx::w_dict(r, &mut rq);
+    }
+    match &res {
+        None => rq.push("same".into()),
+        Some(v) => {
+            rq.push(v.len().to_string());
+            for r in v {
+                vx::w_dict(r, &mut rq);
+            }
+        }
+    }
+    rq.push(fits_t.len().to_string());
+    for (sname, b) in &fits_t {
+        rq.push(vx::h(sname));
+        rq.push(if b.is_empty() { "-".into() } else { bits(b) });
+    }
+    rq.push(rel_t.len().to_string());
+    for (k, b) in &rel_t {
+        rq.push(vx::h(&k.0));
+        rq.push(vx::ho(&k.1));
+        rq.push(vx::ho(&k.2));
+        rq.push(if b.is_empty() { "-".into() } else { bits(b) });
+    }
+    out.req(rq.join(" "), reply);
+}
+
+// ------------------------------------------------------------------------------------------------
+// generation
+// ------------------------------------------------------------------------------------------------
+fn num(v: f64, unit: Option<&str>) -> Value {
+    Value::Number(Number { value: v, unit: unit.and_then(libhaystack::units::get_unit) })
+}
+fn date(y: i32, m: u32, d: u32) -> Value {
+    Value::Date(Date::from(chrono::NaiveDate::from_ymd_opt(y, m, d).unwrap()))
+}
+fn time(h: u32, m: u32, s: u32) -> Value {
+    Value::Time(Time::from(chrono::NaiveTime::from_hms_opt(h, m, s).unwrap()))
+}
+fn datetime(secs: i64, tz: chrono_tz::Tz) -> Value {
+    use chrono::TimeZone;
+    Value::DateTime(DateTime::from(tz.timestamp_opt(secs, 0).single().unwrap()))
+}
+fn rf(id: &str) -> Value {
+    Value::Ref(Ref { value: id.into(), dis: None })
+}
+fn list(v: Vec<Value>) -> Value {
+    Value::List(v)
+}
+fn dict_of(kvs: Vec<(&str, Value)>) -> Dict {
+    let mut d = Dict::new();
+    for (k, v) in kvs {
+        d.insert(k.to_string(), v);
+    }
+    d
+}
+fn p(segs: &[&str]) -> Vec<String> {
+    segs.iter().map(|s| s.to_string()).collect()
+}
+
+/// the 12 literals of the small universe
+fn uni_literals() -> Vec<Value> {
+    vec![
+        num(5.0, None),
+        num(3.0, None),
+        num(5.0, Some("m")),
+        num(-1.5, None),
+        Value::make_str("x"),
+        Value::make_str("5"),
+        Value::make_true(),
+        rf("p"),
+        date(2021, 1, 1),
+        time(12, 30, 0),
+        Value::make_symbol("x"),
+        Value::make_uri("u"),
+    ]
+}
+/// the shapes a tag takes in the small universe; `None` = tag missing
+fn uni_shapes() -> Vec<Option<Value>> {
+    vec![
+        None,
+        Some(Value::Null),
+        Some(num(5.0, None)),
+        Some(num(3.0, None)),
+        Some(num(7.0, None)),
+        Some(num(5.0, Some("m"))),
+        Some(num(3.0, Some("s"))),
+        Some(num(-1.5, None)),
+        Some(num(f64::NAN, None)),
+        Some(Value::make_str("x")),
+        Some(Value::make_str("5")),
+        Some(Value::make_str("y")),
+        Some(Value::make_true()),
+        Some(Value::make_false()),
+        Some(Value::Marker),
+        Some(Value::Na),
+        Some(Value::Remove),
+        Some(rf("p")),
+        Some(Value::Ref(Ref { value: "p".into(), dis: Some("P".into()) })),
+        Some(rf("q")),
+        Some(date(2021, 1, 1)),
+        Some(date(2020, 12, 31)),
+        Some(time(12, 30, 0)),
+        Some(time(23, 59, 59)),
+        Some(datetime(1_600_000_000, chrono_tz::UTC)),
+        Some(Value::make_symbol("x")),
+        Some(Value::make_uri("u")),
+        Some(Value::Coord(Coord { lat: 1.0, long: 2.0 })),
+        Some(Value::XStr(XStr { r#type: "T".into(), value: "x".into() })),
+        Some(list(vec![num(3.0, None), num(7.0, None)])),
+        Some(list(vec![Value::make_str("x"), num(5.0, Some("m"))])),
+        Some(list(vec![])),
+        Some(list(vec![Value::Null, num(5.0, None)])),
+        Some(list(vec![Value::Null])),
+        Some(list(vec![list(vec![num(5.0, None)]), Value::make_str("x")])),
+        Some(Value::Dict(dict_of(vec![("a", num(5.0, None))]))),
+    ]
+}
+/// the 6 paths of the small universe (tag names a b d r)
+fn uni_paths() -> Vec<Vec<String>> {
+    vec![p(&["a"]), p(&["b"]), p(&["d", "a"]), p(&["d", "d", "a"]), p(&["r", "a"]), p(&["r", "r", "d", "a"])]
+}
+/// records of the small universe: every shape as `a`; `b`, `d->a`, `d->d->a` run through the shapes
+/// with other strides; `r` points to the next record (last two: a dangling Ref and a two-cycle)
+fn uni_records() -> Vec<Dict> {
+    let shapes = uni_shapes();
+    let n = shapes.len();
+    let id = |i: usize| match i {
+        0 => "p".to_string(),
+        1 => "q".to_string(),
+        i => format!("r{i}"),
+    };
+    let mut recs = Vec::new();
+    for i in 0..n {
+        let mut d = Dict::new();
+        d.insert("id".into(), rf(&id(i)));
+        if let Some(v) = &shapes[i] {
+            d.insert("a".into(), v.clone());
+        }
+        if let Some(v) = &shapes[(i * 7 + 3) % n] {
+            d.insert("b".into(), v.clone());
+        }
+        let mut inner2 = Dict::new();
+        if let Some(v) = &shapes[(i + 17) % n] {
+            inner2.insert("a".into(), v.clone());
+        }
+        let mut inner = Dict::new();
+        if let Some(v) = &shapes[(i + 11) % n] {
+            inner.insert("a".into(), v.clone());
+        }
+        if i % 5 != 4 {
+            inner.insert("d".into(), Value::Dict(inner2));
+        }
+        if i % 6 != 5 {
+            d.insert("d".into(), Value::Dict(inner));
+        }
+        let r = if i == n - 1 {
+            rf("nowhere")
+        } else if i == 1 {
+            rf("p") // p -> q -> p
+        } else {
+            rf(&id(i + 1))
+        };
+        if i % 9 != 8 {
+            d.insert("r".into(), r);
+        }
+        recs.push(d);
+    }
+    recs
+}
+
+fn case_input(mode: &str, f: &POr, recs: &[Dict], res: Option<&[Dict]>) -> String {
+    let mut v: Vec<String> = vec![mode.to_string()];
+    w_or(f, &mut v);
+    v.push(recs.len().to_string());
+    for r in recs {
+        vx::w_dict(r, &mut v);
+    }
+    match res {
+        None => v.push("same".into()),
+        Some(rs) => {
+            v.push(rs.len().to_string());
+            for r in rs {
+                vx::w_dict(r, &mut v);
+            }
+        }
+    }
+    v.join(" ")
+}
+
+/// every single-term filter of the small universe
+fn uni_terms() -> Vec<T> {
+    let mut ts = Vec::new();
+    for path in uni_paths() {
+        ts.push(T::Has(path.clone()));
+        ts.push(T::Miss(path.clone()));
+        for op in OPS {
+            for lit in uni_literals() {
+                ts.push(T::Cmp(op, path.clone(), lit));
+            }
+        }
+    }
+    for path in [p(&["r"]), p(&["a"]), p(&["d", "a"]), p(&["r", "r"])] {
+        for target in ["p", "q", "r5", "nowhere", "zz"] {
+            ts.push(T::Weq(path.clone(), target.to_string()));
+        }
+    }
+    ts
+}
+
+/// all Or/And/Parens shapes with `n` leaves (leaf = index into the leaf sequence); parentheses around
+/// at least two leaves, or around a single leaf when the whole filter has at most two
+fn shapes(n: usize) -> Vec<POrShape> {
+    // `single`: may the Or consist of one And with one term (false directly inside parentheses)
+    fn ors(lo: usize, hi: usize, total: usize, single: bool) -> Vec<POrShape> {
+        let mut res = Vec::new();
+        for first_end in lo + 1..=hi {
+            for a in ands(lo, first_end, total, single || first_end < hi) {
+                if first_end == hi {
+                    res.push(vec![a.clone()]);
+                } else {
+                    for rest in ors(first_end, hi, total, true) {
+                        let mut o = vec![a.clone()];
+                        o.extend(rest);
+                        res.push(o);
+                    }
+                }
+            }
+        }
+        res
+    }
+    fn ands(lo: usize, hi: usize, total: usize, single: bool) -> Vec<Vec<TermShape>> {
+        let mut res = Vec::new();
+        for first_end in lo + 1..=hi {
+            if first_end == hi && !single {
+                continue;
+            }
+            for t in terms(lo, first_end, total) {
+                if first_end == hi {
+                    res.push(vec![t.clone()]);
+                } else {
+                    for rest in ands(first_end, hi, total, true) {
+                        let mut a = vec![t.clone()];
+                        a.extend(rest);
+                        res.push(a);
+                    }
+                }
+            }
+        }
+        res
+    }
+    fn terms(lo: usize, hi: usize, total: usize) -> Vec<TermShape> {
+        let mut res = Vec::new();
+        if hi - lo == 1 {
+            res.push(TermShape::Leaf(lo));
+            if total <= 2 {
+                res.push(TermShape::Par(vec![vec![TermShape::Leaf(lo)]]));
+            }
+        } else {
+            for o in ors(lo, hi, total, false) {
+                res.push(TermShape::Par(o));
+            }
+        }
+        res
+    }
+    ors(0, n, n, true)
+}
+#[derive(Clone, Debug)]
+enum TermShape {
+    Leaf(usize),
+    Par(POrShape),
+}
+type POrShape = Vec<Vec<TermShape>>;
+fn fill(s: &POrShape, leaves: &[T]) -> POr {
+    s.iter()
+        .map(|a| {
+            a.iter()
+                .map(|t| match t {
+                    TermShape::Leaf(i) => leaves[*i].clone(),
+                    TermShape::Par(o) => T::Par(fill(o, leaves)),
+                })
+                .collect()
+        })
+        .collect()
+}
+
+/// the leaf alphabet of the exhaustive multi-term enumeration
+fn enum_alphabet(k: usize) -> Vec<T> {
+    let all = vec![
+        T::Has(p(&["a"])),
+        T::Cmp(Op::Lt, p(&["a"]), num(5.0, None)),
+        T::Miss(p(&["b"])),
+        T::Cmp(Op::Ne, p(&["b"]), Value::make_str("x")),
+        T::Cmp(Op::Eq, p(&["d", "a"]), num(5.0, None)),
+        T::Cmp(Op::Ge, p(&["a"]), num(5.0, None)),
+        T::Cmp(Op::Eq, p(&["a"]), Value::make_str("x")),
+        T::Has(p(&["d", "a"])),
+        T::Cmp(Op::Gt, p(&["b"]), num(3.0, None)),
+        T::Miss(p(&["a"])),
+    ];
+    all.into_iter().take(k).collect()
+}
+/// records of the multi-term enumeration: a, b, d->a take missing / Null / same kind / other kind / list
+fn enum_records() -> Vec<Dict> {
+    vec![
+        dict_of(vec![]),
+        dict_of(vec![("a", num(3.0, None)), ("b", Value::make_str("x"))]),
+        dict_of(vec![("a", num(5.0, None)), ("d", Value::Dict(dict_of(vec![("a", num(5.0, None))])))]),
+        dict_of(vec![("a", num(7.0, None)), ("b", num(4.0, None)), ("d", Value::Dict(dict_of(vec![("a", Value::make_str("x"))])))]),
+        dict_of(vec![("a", Value::make_str("x")), ("b", Value::make_str("y"))]),
+        dict_of(vec![("a", Value::Null), ("b", Value::Null), ("d", Value::Dict(dict_of(vec![])))]),
+        dict_of(vec![("a", list(vec![num(3.0, None), num(7.0, None)])), ("b", list(vec![Value::make_str("x"), num(9.0, None)]))]),
+        dict_of(vec![("b", num(1.0, None)), ("d", Value::Dict(dict_of(vec![("a", list(vec![num(5.0, None)]))])))]),
+        dict_of(vec![("a", Value::Marker), ("b", Value::Marker), ("d", Value::Marker)]),
+    ]
+}
+
+// ---- random filters and records -----------------------------------------------------------------
+const TAGS: [&str; 8] = ["a", "b", "c", "d", "r", "l", "siteRef", "equipRef"];
+fn rnd_path(rng: &mut Rng) -> Vec<String> {
+    let len = match rng.below(10) {
+        0..=4 => 1,
+        5..=7 => 2,
+        8 => 3,
+        _ => 4,
+    };
+    let mut v = Vec::new();
+    for i in 0..len {
+        let inner = ["d", "r", "a", "siteRef", "equipRef"];
+        if i + 1 < len {
+            v.push(rng.pick(&inner).to_string());
+        } else {
+            v.push(rng.pick(&TAGS).to_string());
+        }
+    }
+    v
+}
+fn rnd_literal(rng: &mut Rng) -> Value {
+    let units = [None, None, Some("m"), Some("s"), Some("kW")];
+    match rng.below(12) {
+        0..=3 => num((rng.range(-20, 40) as f64) / if rng.chance(1, 3) { 4.0 } else { 1.0 }, *rng.pick(&units)),
+        4 | 5 => Value::make_str(*rng.pick(&["x", "y", "5", "", "a b", "X", "xx"])),
+        6 => Value::make_bool(rng.chance(1, 2)),
+        7 => rf(*rng.pick(&["p", "q", "s1", "e1", "zz"])),
+        8 => date(2020 + rng.below(3) as i32, 1 + rng.below(12) as u32, 1 + rng.below(28) as u32),
+        9 => time(rng.below(24) as u32, rng.below(60) as u32, rng.below(60) as u32),
+        10 => {
+            if rng.chance(1, 2) {
+                datetime(1_600_000_000 + rng.range(-3, 3) * 3600, *rng.pick(&[chrono_tz::UTC, chrono_tz::America::New_York]))
+            } else {
+                Value::make_symbol(*rng.pick(&["x", "site", "equip"]))
+            }
+        }
+        _ => Value::make_uri(*rng.pick(&["u", "http://x/y", ""])),
+    }
+}
+fn rnd_term(rng: &mut Rng, depth: u32, with_ns: bool) -> T {
+    match rng.below(20) {
+        0 | 1 if depth > 0 => T::Par(rnd_or(rng, depth - 1, with_ns)),
+        2 | 3 => T::Has(rnd_path(rng)),
+        4 | 5 => T::Miss(rnd_path(rng)),
+        6 if with_ns => T::IsA(rng.pick(&["site", "equip", "geoPlace", "ahu", "point", "entity", "nope"]).to_string()),
+        7 => T::Weq(rnd_path(rng), rng.pick(&["p", "q", "s1", "e1", "zz"]).to_string()),
+        8 if with_ns => T::Rel(
+            rng.pick(&["containedBy", "inputs", "siteRef", "nope"]).to_string(),
+            if rng.chance(1, 4) { Some(rng.pick(&["site", "equip", "air"]).to_string()) } else { None },
+            if rng.chance(2, 3) { Some(rng.pick(&["s1", "e1", "p", "q"]).to_string()) } else { None },
+        ),
+        _ => T::Cmp(*rng.pick(&OPS), rnd_path(rng), rnd_literal(rng)),
+    }
+}
+fn rnd_or(rng: &mut Rng, depth: u32, with_ns: bool) -> POr {
+    let n_and = 1 + [0, 0, 0, 1, 1, 2][rng.below(6) as usize];
+    (0..n_and)
+        .map(|_| {
+            let n_t = 1 + [0, 0, 1, 1, 2, 3][rng.below(6) as usize];
+            (0..n_t).map(|_| rnd_term(rng, depth, with_ns)).collect()
+        })
+        .collect()
+}
+fn rnd_value(rng: &mut Rng, depth: u32) -> Value {
+    match rng.below(16) {
+        0 => Value::Null,
+        1..=5 => rnd_literal(rng),
+        6 => Value::Marker,
+        7 if depth > 0 => list((0..rng.below(4)).map(|_| rnd_value(rng, depth - 1)).collect()),
+        8 if depth > 0 => Value::Dict(rnd_dict(rng, depth - 1, false)),
+        9 => gen::value(rng, &Cfg::any(1)),
+        10 => gen::scalar(rng, &Cfg::any(1)),
+        11 => num(f64::NAN, None),
+        _ => rnd_literal(rng),
+    }
+}
+fn rnd_dict(rng: &mut Rng, depth: u32, top: bool) -> Dict {
+    let mut d = Dict::new();
+    for t in TAGS {
+        if rng.chance(1, 2) {
+            let v = match t {
+                "d" if depth > 0 && rng.chance(3, 4) => Value::Dict(rnd_dict(rng, depth - 1, false)),
+                "r" | "siteRef" | "equipRef" if rng.chance(3, 4) => rf(*rng.pick(&["p", "q", "s1", "e1", "zz"])),
+                "l" if rng.chance(3, 4) => list((0..rng.below(4)).map(|_| rnd_value(rng, 1)).collect()),
+                _ => rnd_value(rng, depth),
+            };
+            d.insert(t.to_string(), v);
+        }
+    }
+    if top {
+        if rng.chance(9, 10) {
+            d.insert("id".into(), rf(*rng.pick(&["p", "q", "s1", "e1", "p"])));
+        }
+        match rng.below(6) {
+            0 => {
+                d.insert("site".into(), Value::Marker);
+            }
+            1 => {
+                d.insert("equip".into(), Value::Marker);
+            }
+            2 => {
+                d.insert("ahu".into(), Value::Marker);
+                d.insert("equip".into(), Value::Marker);
+            }
+            3 => {
+                d.insert("point".into(), Value::Marker);
+            }
+            _ => {}
+        }
+    }
+    d
+}
+
+pub fn generate(ctx: &mut Ctx) {
+    // 1. every single-term filter of the small universe, on every record of it, both ways
+    let recs = uni_records();
+    for t in uni_terms() {
+        let mut f = vec![vec![t]];
+        avoid_p1(&mut f);
+        ctx.case("uni1:d", &case_input("d", &f, &recs, None));
+        ctx.case("uni1:r", &case_input("r", &f, &recs, None));
+    }
+    // 2. ALL filters up to N leaves over the leaf alphabet: every and/or/parenthesis shape x every
+    //    assignment of leaves, on the enumeration records
+    //    (leaves: quick 5 for N<=3; thorough 10 for N<=3 and 6 for N=4: 176 shapes x 6^4 filters)
+    let max_n = if ctx.quick() { 3 } else { 4 };
+    let erecs = enum_records();
+    for n in 1..=max_n {
+        let k: usize = if ctx.quick() { 5 } else if n <= 3 { 10 } else { 6 };
+        let alpha = enum_alphabet(k);
+        let shs = shapes(n);
+        ctx.count(&format!("shapes_with_{n}_leaves:{}", shs.len()));
+        let total = k.pow(n as u32);
+        for sh in &shs {
+            for code in 0..total {
+                let mut c = code;
+                let leaves: Vec<T> = (0..n)
+                    .map(|_| {
+                        let t = alpha[c % k].clone();
+                        c /= k;
+                        t
+                    })
+                    .collect();
+                let mut f = fill(sh, &leaves);
+                avoid_p1(&mut f);
+                ctx.case(&format!("enum{n}:d"), &case_input("d", &f, &erecs, None));
+            }
+        }
+    }
+    // 3. random filters on random record sets
+    let total = ctx.n(3000, 100_000);
+    for i in 0..total {
+        let mut rng = ctx.rng.fork();
+        let with_resolver = i % 2 == 1;
+        let mut f = rnd_or(&mut rng, 2, with_resolver);
+        avoid_p1(&mut f);
+        let n = 1 + rng.below(6) as usize;
+        let recs: Vec<Dict> = (0..n).map(|_| rnd_dict(&mut rng, 2, true)).collect();
+        if with_resolver {
+            if rng.chance(1, 4) {
+                let extra: Vec<Dict> = (0..1 + rng.below(4)).map(|_| rnd_dict(&mut rng, 2, true)).collect();
+                ctx.case("rand:r", &case_input("r", &f, &recs, Some(&extra)));
+            } else {
+                ctx.case("rand:r", &case_input("r", &f, &recs, None));
+            }
+        } else {
+            ctx.case("rand:d", &case_input("d", &f, &recs, None));
+        }
+    }
+}
